@@ -1,6 +1,7 @@
 # mypy: ignore-errors
 
 from copy import copy
+from operator import index
 from typing import Dict, Iterable, Iterator, List, Optional, Set
 
 import networkx as nx
@@ -261,6 +262,8 @@ class TsGraphEdgePropertyMixin:
         self : time-series graph
             The modified time-series graph with new max-lag.
         """
+        # the lag must be an integer (TypeError otherwise): checked before anything is modified
+        lag = index(lag)
         if lag <= 0:
             raise ValueError(
                 f"Max lag must always be greater than 0, so passed in {lag} value is invalid."
